@@ -105,19 +105,37 @@ def _kargs(u, x):
     return ["-u", str(u), "-x", str(x)] if u else []
 
 
-def _keys_text(trace):
-    """The concrete keys of a recorded run, for the violation message (syntactic rendering of the Keys line)."""
+def _keys_text(trace, calls):
+    """The concrete string keys the calls name, for the violation message (syntactic rendering of the Keys line)."""
     try:
         with open(trace) as f:
             d = json.loads(f.readline())
         if d.get("e") != "Keys" or d.get("cmp") != "charp":
             return ""
+        used = sorted(set(int(c.split()[1]) for c in calls if c[0] in "IJFLD"))
+
         def sp(codes):
             return json.dumps("".join(chr(c) for c in codes))
         return "; string keys by rank: " + ", ".join(
-            "%d=%s" % (i + 1, "/".join(sorted(set(sp(v) for v in ks)))) for i, ks in enumerate(d["keys"]) if i < 16)
-    except (OSError, ValueError, KeyError):
+            "%d=%s" % (k, "/".join(sorted(set(sp(v) for v in d["keys"][k - 1])))) for k in used[:24])
+    except (OSError, ValueError, KeyError, IndexError):
         return ""
+
+
+def _as_run(trace, calls):
+    """The call sequence as the harness executed it: "J k" without a kept node of rank k is "I k"."""
+    try:
+        got = []
+        with open(trace) as f:
+            for ln in f:
+                d = json.loads(ln)
+                if d.get("e") in ("Op", "Begin"):
+                    got.append(_op_cmd(d))
+    except (OSError, ValueError, KeyError):
+        return calls
+    if len(got) != len(calls):
+        return calls
+    return [g if c.startswith("J") and g.startswith("I") and g[1:] == c[1:] else c for g, c in zip(got, calls)]
 
 
 def _validate(ctx, trace, timeout=900):
@@ -255,11 +273,13 @@ def _report(ctx, cmp_, n, cmds, verdict, origin, stderr="", u=0, x=0):
     if not v3:          # cannot happen (the minimiser only keeps failing sequences); be safe
         small, v3, err3 = cmds, v2, err2
     conjunct = v3[0]
+    fin = os.path.join(ctx.scratch, "confirm-fin.ndjson")
+    small = _as_run(fin, small)
     legend = (" (J k = insert the node object of key k that an earlier call took out with no_dispose)"
               if any(c.startswith("J") for c in small) else "")
     what = "%s; comparator %s, %d keys%s, %s; call sequence from an empty set%s: %s" % (
         CONJUNCT_TEXT.get(conjunct, conjunct), cmp_, n,
-        _keys_text(os.path.join(ctx.scratch, "confirm-fin.ndjson")), origin, legend, " ; ".join(small))
+        _keys_text(fin, small), origin, legend, " ; ".join(small))
     san = (err3 or stderr or "")[-1500:]
     ctx.violation(what, conjunct, _sig(cmp_, n, u, x, small),
                   {"cmp": cmp_, "n": n, "u": u, "x": x, "calls": small, "conjunct": conjunct,
@@ -755,7 +775,7 @@ def replay(ctx, body):
     ctx.sample(rp["calls"])
     if v:
         ctx.violation("%s; replayed call sequence%s: %s" % (
-            CONJUNCT_TEXT.get(v[0], v[0]), _keys_text(os.path.join(ctx.scratch, "confirm-replay.ndjson")),
+            CONJUNCT_TEXT.get(v[0], v[0]), _keys_text(os.path.join(ctx.scratch, "confirm-replay.ndjson"), rp["calls"]),
             " ; ".join(rp["calls"])), v[0], _sig(rp["cmp"], rp["n"], u, x, rp["calls"]),
             dict(rp, sanitizer=err[-1500:], tlc=v[2][:600]))
     else:
